@@ -176,8 +176,24 @@ impl Replayer {
         let mut names: Vec<String> = runs.keys().cloned().collect();
         names.sort();
         let case = |extra: Value| json!({"script": v, "vars": vars, "variant": variant, "detail": extra});
+        self.last_warm_chain.clear();
         for rn in &names {
             let mut ctx: Option<Ctx> = None;
+            let mut others: HashMap<u64, Ctx> = HashMap::new();
+            let warm_run = v["warm"].as_str() == Some(rn.as_str());
+            let cached_run = v["fresh_cache"].as_str() == Some(rn.as_str());
+            let mut warm_key = String::new();
+            if cached_run {
+                // a brand-new context typing a text: deterministic, computed once per (cfg, text)
+                let steps = runs[rn].as_array().cloned().unwrap_or_default();
+                let key = format!("{}|{}", steps[0]["cfg"], subst(&steps[1]["text"], vars));
+                if let Some(o) = self.fresh_cache.get(&key) {
+                    observations.insert(rn.clone(), vec![
+                        Obsv { obs: Obs { kind: "none".into(), ..Default::default() }, committed: None, raw_keys: String::new() },
+                        Obsv { obs: o.clone(), committed: None, raw_keys: String::new() }]);
+                    continue;
+                }
+            }
             let mut last = Obs { kind: "none".into(), ..Default::default() };
             let mut obsv: Vec<Obsv> = Vec::new();
             for (i, st) in runs[rn].as_array().cloned().unwrap_or_default().iter().enumerate() {
@@ -185,6 +201,32 @@ impl Replayer {
                 let home = self.home_slot(st["home"].as_str().unwrap_or("h0"));
                 let mut committed = None;
                 let mut raw_keys = String::new();
+                // a step addressed to another context of the same process (same configuration and user files)
+                let cid = st["ctx"].as_u64().unwrap_or(1);
+                if cid != 1 {
+                    if let Some(main) = ctx.as_ref() {
+                        if !others.contains_key(&cid) {
+                            if let Ok(c2) = Ctx::new(&main.cfg, &main.user_home) {
+                                others.insert(cid, c2);
+                            }
+                        }
+                    }
+                    if let Some(c2) = others.get_mut(&cid) {
+                        let text = subst(&st["text"], vars);
+                        for chh in text.chars() {
+                            if let Some(code) = self.keys.code_for_char(chh) {
+                                let o2 = c2.key(code, 0, 0);
+                                self.rep.events += 1;
+                                if o2.kind == "panic" {
+                                    pending.push(("panic".to_string(), format!("run {} step {}: second context panicked: {}", rn, i, o2.panic.unwrap_or_default()), case(json!({"run": rn, "step": i}))));
+                                    return false;
+                                }
+                            }
+                        }
+                    }
+                    obsv.push(Obsv { obs: Obs { kind: "none".into(), ..Default::default() }, committed: None, raw_keys: String::new() });
+                    continue;
+                }
                 let o: Obs = match op {
                     "new" => {
                         let cfg: Cfg = serde_json::from_value(st["cfg"].clone()).unwrap_or_default();
@@ -194,7 +236,24 @@ impl Replayer {
                                 self.pool.insert(key, old);
                             }
                         }
-                        let pooled = if reuse { self.pool.remove(&serde_json::to_string(&cfg).unwrap()) } else { None };
+                        let mut pooled = if reuse { self.pool.remove(&serde_json::to_string(&cfg).unwrap()) } else { None };
+                        if warm_run {
+                            // a long-lived context that has already composed the words of earlier scenarios
+                            warm_key = serde_json::to_string(&cfg).unwrap();
+                            if let Some((c, c2, chain)) = self.warm.remove(&warm_key) {
+                                if chain.len() < 4000 {
+                                    pooled = Some(c);
+                                    if let Some(c2) = c2 {
+                                        others.insert(2, c2);
+                                    }
+                                    self.warm_chain = chain;
+                                } else {
+                                    self.warm_chain = Vec::new();
+                                }
+                            } else {
+                                self.warm_chain = Vec::new();
+                            }
+                        }
                         let made = match pooled {
                             Some(mut c) => {
                                 c.finish();
@@ -344,6 +403,34 @@ impl Replayer {
                 }
                 obsv.push(Obsv { obs: o, committed, raw_keys });
             }
+            if cached_run && obsv.len() == 2 && obsv[1].obs.kind != "panic" {
+                let steps = runs[rn].as_array().cloned().unwrap_or_default();
+                let key = format!("{}|{}", steps[0]["cfg"], subst(&steps[1]["text"], vars));
+                self.fresh_cache.insert(key, obsv[1].obs.clone());
+            }
+            if warm_run {
+                // remember what this context has been through (the replay of a violation needs all of it)
+                for st in runs[rn].as_array().cloned().unwrap_or_default().iter().skip(1) {
+                    let mut st = st.clone();
+                    if st.get("text").is_some() {
+                        st["text"] = Value::String(subst(&st["text"], vars));
+                    }
+                    self.warm_chain.push(st);
+                }
+                self.warm_chain.push(json!({"op": "finish"}));
+                if let Some(mut c) = ctx.take() {
+                    if !c.dead {
+                        c.finish();
+                        let mut c2 = others.remove(&2);
+                        if let Some(c2) = c2.as_mut() {
+                            c2.finish();
+                        }
+                        let chain = std::mem::take(&mut self.warm_chain);
+                        self.last_warm_chain = chain.clone();
+                        self.warm.insert(warm_key.clone(), (c, c2, chain));
+                    }
+                }
+            }
             observations.insert(rn.clone(), obsv);
             if let Some(old) = ctx.take() {
                 if reuse && !old.dead {
@@ -478,7 +565,11 @@ impl Replayer {
                 _ => None,
             };
             if let Some(b) = bad {
-                pending.push((site.clone(), b, case(json!({"check": ch}))));
+                let mut cs = case(json!({"check": ch}));
+                if !self.last_warm_chain.is_empty() {
+                    cs["warm_context_history"] = Value::Array(self.last_warm_chain.clone());
+                }
+                pending.push((site.clone(), b, cs));
                 return false;
             }
         }
